@@ -158,9 +158,25 @@ func (r *Run) Set(key string, v interface{}) {
 	r.Cov[key] = v
 }
 
+// ReplayKey, when set (vcheck --replay <file>), makes Finish answer one question: does the violation recorded in the
+// replay file occur again when the check is re-run with the file's seed and tier? (The checks are deterministic in seed
+// and tier; the file names the behaviour, cell or scenario for a human reader.)
+var ReplayKey string
+
 // Finish writes the evidence file, prints the verdict lines and exits.
 func (r *Run) Finish() {
 	wall := time.Since(r.Start).Seconds()
+	if ReplayKey != "" {
+		for _, v := range r.violations {
+			if v.Key == ReplayKey {
+				fmt.Printf("violation detail: [%s] %s\n", v.Key, v.What)
+				fmt.Printf("VIOLATION property=%s replay=%s\n", r.Property, os.Getenv("VERIF_REPLAY_FILE"))
+				os.Exit(1)
+			}
+		}
+		fmt.Printf("%s replay: violation [%s] does not occur on this tree (seed %d, tier %s, %.1fs)\n", r.Property, ReplayKey, r.Seed, r.Tier, wall)
+		os.Exit(0)
+	}
 	cov := map[string]interface{}{}
 	for k, v := range r.Cov {
 		cov[k] = v
